@@ -124,18 +124,20 @@ LexLess(x, y, i) ==
     ELSE IF x[i] # y[i] THEN x[i] < y[i] ELSE LexLess(x, y, i + 1)
 
 -----------------------------------------------------------------------------
-(* the whole algorithm on one proof.  a = request, p = returned proof, obs = trusted observations     *)
+(* the whole algorithm on one proof.  a = request, o = answer (o.p = returned proof fields, o.evm = the    *)
+(* ABI-decoded EvmProofBytes), obs = trusted observations                                              *)
 
 NonNeg(it) == /\ it.version >= 0 /\ it.count >= 0
               /\ \A j \in 1..Len(it.paths) : it.paths[j].h >= 0 /\ it.paths[j].size >= 0 /\ it.paths[j].ver >= 0
               /\ (~it.isCount => \A f \in {"osid", "ask", "min", "rid", "ans", "reqt", "rest", "status"} : it.res[f] >= 0)
 
-AllGood == [produced |-> TRUE, form |-> TRUE, asked |-> TRUE, value |-> TRUE, iavl |-> TRUE, oracleRoot |-> TRUE,
+AllGood == [produced |-> TRUE, form |-> TRUE, evm |-> TRUE, asked |-> TRUE, value |-> TRUE, iavl |-> TRUE, oracleRoot |-> TRUE,
             appHash |-> TRUE, height |-> TRUE, blockHash |-> TRUE, voteFormat |-> TRUE, voteBytes |-> TRUE,
             recovered |-> TRUE, ascending |-> TRUE]
 
-Verdict(a, p, obs) ==
-    LET items == p.items
+Verdict(a, o, obs) ==
+    LET p == o.p
+        items == p.items
         n == Len(items)
         form == /\ n = Len(obs.stored) /\ n >= 1
                 /\ \A i \in 1..n : NonNeg(items[i])
@@ -151,6 +153,8 @@ Verdict(a, p, obs) ==
            m == Len(p.sigs)
        IN [produced   |-> TRUE,
            form       |-> TRUE,
+           \* the ABI bytes handed to the contract (decoded by go-ethereum) carry exactly these fields
+           evm        |-> o.evm = p,
            \* the proof is about what was asked for
            asked      |-> \A i \in 1..n : /\ items[i].isCount = (a.kind = "count")
                                           /\ (a.kind # "count" => items[i].res.rid = a.rids[i])
@@ -180,7 +184,7 @@ Provable(obs) == obs.avail /\ \A i \in 1..Len(obs.stored) : obs.stored[i].presen
 
 Relay(a, o, obs) ==
     /\ Provable(obs)
-    /\ chk' = (IF o.ok THEN Verdict(a, o.p, obs) ELSE [AllGood EXCEPT !.produced = FALSE])
+    /\ chk' = (IF o.ok THEN Verdict(a, o, obs) ELSE [AllGood EXCEPT !.produced = FALSE])
     /\ nproof' = nproof + 1
     /\ UNCHANGED <<stores, layout>>
 
